@@ -196,8 +196,11 @@ func (cl *Client) WriteLoop() {
 		select {
 		case pk := <-cl.State.outbound:
 			if err := cl.WritePacket(*pk); err != nil {
-				// TODO : Figure out what to do with error
 				cl.ops.log.Debug("failed publishing packet", "error", err, "client", cl.ID, "packet", pk)
+				if pk.FixedHeader.Type == packets.Publish {
+					cl.ops.hooks.OnPublishDropped(cl, *pk) // the message is lost for this connection: report it
+				}
+				cl.flushIdle() // packets accepted earlier must not stay in the buffer because this one failed
 			}
 			atomic.AddInt32(&cl.State.outboundQty, -1)
 		case <-cl.State.open.Done():
@@ -644,6 +647,15 @@ func (cl *Client) WritePacket(pk packets.Packet) error {
 	cl.ops.hooks.OnPacketSent(cl, pk, buf.Bytes())
 
 	return err
+}
+
+// flushIdle writes the buffered packets out if no queued write is left to do it.
+func (cl *Client) flushIdle() {
+	cl.Lock()
+	defer cl.Unlock()
+	if len(cl.State.outbound) == 0 {
+		_ = cl.flushOutbuf()
+	}
 }
 
 func (cl *Client) flushOutbuf() (err error) {
